@@ -50,7 +50,12 @@ def main():
             print(f"{name:8s} {'SILENT' if not bad else 'NOISY  ' + json.dumps({p: (v['rc'], v['rules'] or v['errors'][:1]) for p, v in bad.items()})[:600]}")
     finally:
         sh("git", "-C", "/repo", "worktree", "remove", "--force", wt)
-    json.dump(results, open(os.path.join(HERE, "refactors", "RESULTS.json"), "w"), indent=1)
+    out = os.path.join(HERE, "refactors", "RESULTS.json")
+    if sys.argv[1:] and os.path.exists(out):  # partial run: merge into the recorded table
+        merged = json.load(open(out))
+        merged.update(results)
+        results = merged
+    json.dump(dict(sorted(results.items())), open(out, "w"), indent=1)
     n = sum(1 for v in results.values() if v["status"] == "SILENT")
     print(f"{n}/{len(results)} refactorings leave all 20 checks silent")
 
